@@ -205,9 +205,10 @@ _reg("C09", c09.run, theorems=["NirVerif.C09.iff", "NirVerif.C09.rejects"],
                 "returns True iff every edge joins a defined output shape to an equal defined input shape, and otherwise "
                 "raises ValueError. The model is tied to _check_types by differential testing on enumerated and sampled graphs.",
      level_note="Lean kernel; hand-written model of _check_types and of np.array_equal on shape values; correspondence sampling.")
-_reg("C10", c10.run, module="NirVerif.Properties.C10Consistent",
+_reg("C10", c10.run, module="NirVerif.Properties.C10Consistent", translator=("T1", "T14"),
      theorems=["NirVerif.Model.workList", "NirVerif.C10.frame", "NirVerif.C10.untouched", "NirVerif.C10.reach",
-               "NirVerif.C10.idempotent_partial", "NirVerif.C10.idempotent_consistent"],
+               "NirVerif.C10.idempotent_partial", "NirVerif.C10.idempotent_consistent", "NirVerif.C10.worklist_generated",
+               "NirVerif.C10.workList_pops_head"],
      rule="All multigraphs over 9 node archetypes (typed/untyped Input, element-wise, Flatten, Conv, pooling, typed/untyped "
           "Output) on <=2 nodes with <=2 edges (thorough: plus a 10% sample on 3 nodes); consistent graphs with cycles, "
           "self-loops, parallel edges under all edge permutations (<=4 edges); arbitrary graphs with unreachable "
